@@ -89,7 +89,7 @@ func allShapes() []shape {
 
 // rcase is the replayable description of one executed case.
 type rcase struct {
-	Sub     string // reader | decode | damage | beyond | modemsg | highlevel
+	Sub     string // reader | decode | damage | modemsg | highlevel
 	Compact bool
 	Layers  int
 	Text    string
